@@ -600,6 +600,32 @@ func c04Batch(c *h.Ctx) {
 			}
 		}
 	}
+	// lists whose encoded length crosses the 2-byte / 4-byte varint boundary (16384) and large ones
+	for _, shape := range [][2]int{{2, 60}, {2, 61}, {2, 62}, {2, 63}, {2, 64}, {2, 65}, {2, 66}, {1, 296}, {1, 300}, {1, 303}, {1, 304}, {1, 310}, {1, 315}, {1, 316}, {1, 320}, {3, 130}, {2, 300}} {
+		var reqs []tokens.TokenRequestWithDetails
+		var args [][]byte
+		for i := 0; i < shape[1]; i++ {
+			ty := shape[0]
+			if ty == 3 {
+				ty = 1 + i%2
+			}
+			r, a := mk(ty)
+			reqs = append(reqs, r)
+			args = append(args, a...)
+		}
+		br, err := batched.BatchedClient{}.CreateTokenRequest(reqs)
+		if err != nil {
+			c.Violation("batched client refuses a list of type-1/2 requests", map[string]any{"n": shape[1]})
+			continue
+		}
+		enc := br.Marshal()
+		c.Case("batch:enc:around-16384-bytes", true, "enc_batch", args, [][]byte{h.StOK, enc})
+		decBatch(c, "batch:dec-of-enc:around-16384-bytes", enc)
+		r := new(batched.BatchedTokenRequest)
+		if !r.Unmarshal(enc) || !eqFields(bitemsOuts(r)[1:], args) {
+			c.Violation("batch request: decode(encode(l)) = l", map[string]any{"n": shape[1], "type": shape[0], "encoded_len": len(enc)})
+		}
+	}
 	for _, enc := range sampleEnc {
 		_, hl := quicwire.ConsumeVarint(enc)
 		body := enc[hl:]
@@ -636,9 +662,24 @@ func c04Batch(c *h.Ctx) {
 		decBatch(c, "batch:random", rnd(c, c.Rng.Intn(70)))
 	}
 	// responses -------------------------------------------------------------------------------
+	var wantResps [][]byte // when non-nil: the entries a spec-format list was built from (absent = empty)
 	decResps := func(cat_ string, data []byte) {
 		var l [][]byte
 		var err error
+		want := wantResps
+		wantResps = nil
+		defer func() {
+			if want == nil {
+				return
+			}
+			ok := err == nil && len(l) == len(want)
+			for i := 0; ok && i < len(l); i++ {
+				ok = bytes.Equal(l[i], want[i])
+			}
+			if !ok {
+				c.Violation("response list: decoding a well-formed list in the specified format (status 0 = absent, 1 = present, type, fixed-length response) returns its entries", map[string]any{"input": h.Hex(data[:minInt(len(data), 64)]), "entries": len(want)})
+			}
+		}()
 		pan, msg := h.Protect(func() { l, err = batched.UnmarshalBatchedTokenResponses(data) })
 		if pan {
 			c.Case(cat_, true, "dec_resps", [][]byte{data}, [][]byte{h.StPanic})
@@ -676,6 +717,10 @@ func c04Batch(c *h.Ctx) {
 			}
 			enc := cat(quicwire.AppendVarint(nil, uint64(len(body))), body)
 			c.Case("resps:enc-typed", true, "enc_resps_typed", typed, [][]byte{h.StOK, enc})
+			wantResps = [][]byte{}
+			for i := 1; i < len(typed); i += 2 {
+				wantResps = append(wantResps, append([]byte{}, typed[i]...))
+			}
 			decResps("resps:well-formed", enc)
 			total++
 			if total%5 == 0 {
